@@ -66,28 +66,37 @@ Qed.
 
 (* ------------------------------------------------------------------ scheduler *)
 Lemma try_ready_spec cfg t why :
+  why <> SInit \/ tr_status t = Paused Busy ->
   wp cfg (try_ready (cf_debug_assertions cfg) t why)
      (fun r => tr_id (fst r) = tr_id t /\ tr_reqs (fst r) = tr_reqs t).
 Proof.
-  unfold try_ready. destruct (tr_status t) as [|p]; [cbn; auto|].
-  destruct why; try (destruct p; cbn; auto).
-  all: destruct (cf_debug_assertions cfg) eqn:E; cbn; auto; right; auto.
+  intros Hw. unfold try_ready. destruct (tr_status t) as [|p] eqn:Es; [cbn; auto|].
+  destruct why; try (destruct p; cbn; auto; fail).
+  destruct Hw as [Hw | Hw]; [congruence|]. inversion Hw; subst. cbn [negb]. rewrite andb_false_r. cbn; auto.
 Qed.
 
-Lemma reschedule_spec cfg st id why :
+Lemma reschedule_gen cfg st id why :
   RInvC cfg st -> occ (lives st) id ->
+  (why <> SInit \/ forall t, slab_get (r_trackers st) id = Some t -> tr_status t = Paused Busy) ->
   wp cfg (reschedule st id why)
      (fun st' => RInvC cfg st' /\ ext st st' /\ r_notif st' = r_notif st).
 Proof.
-  intros HI Ho. destruct (live_gets _ _ _ HI Ho) as (c & i & o & a & t & Hc & Hi & Hob & Ha & Ht).
+  intros HI Ho Hw. destruct (live_gets _ _ _ HI Ho) as (c & i & o & a & t & Hc & Hi & Hob & Ha & Ht).
   unfold reschedule, get_tracker. rewrite Ht. cbn [bind]. rewrite (ri_cfg _ _ HI).
-  apply wp_bind. wp_use try_ready_spec. intros [t' woke] [Hid Hrq]. cbn [fst] in *.
+  apply wp_bind. wp_use try_ready_spec; [destruct Hw as [Hw | Hw]; [left; exact Hw|right; apply Hw; exact Ht]|].
+  intros [t' woke] [Hid Hrq]. cbn [fst] in *.
   assert (HI' : RInvC cfg (put_tracker st id t')).
   { eapply RInv_put_tracker; eauto. rewrite Hrq. apply (ri_trk _ _ HI _ _ Ht). }
   destruct woke; cbn [wp].
   - split; [now apply RInv_set_ready|]. frame_tac.
   - split; [exact HI'|]. frame_tac.
 Qed.
+
+Lemma reschedule_spec cfg st id why :
+  RInvC cfg st -> occ (lives st) id -> why <> SInit ->
+  wp cfg (reschedule st id why)
+     (fun st' => RInvC cfg st' /\ ext st st' /\ r_notif st' = r_notif st).
+Proof. intros HI Ho Hw. apply reschedule_gen; auto. Qed.
 
 Lemma trackv_spec cfg st id rqs :
   RInvC cfg st -> occ (lives st) id -> Forall (req_ok (nlen st)) rqs ->
@@ -164,7 +173,7 @@ Proof.
   - cbn [wp]. split; [exact HI|]. split; [apply ext_refl|reflexivity].
   - inversion Hns as [|? ? [Ho Hrq] Hns']; subst. cbn [fst snd] in *.
     apply wp_bind. wp_use track_spec; eauto. intros st1 [HI1 F1].
-    apply wp_bind. wp_use reschedule_spec; eauto using ext_occ, fr_ext.
+    apply wp_bind. wp_use reschedule_spec; [exact HI1|eapply ext_occ; [apply fr_ext; exact F1|exact Ho]|discriminate|].
     intros st2 (HI2 & E2 & N2).
     wp_use IH; eauto.
     + eapply ext_wts; [|exact Hns']. eapply ext_trans; [apply fr_ext; exact F1|exact E2].
